@@ -1,6 +1,34 @@
 import RxnModel.Model.Savepoint
-/-! Helper lemmas for C14 (savepoint artifacts). Core only. -/
+import Std.Data.String.ToNat
+/-! Helper lemmas for C14 (savepoint artifacts). Core and Std only. -/
 namespace Rxn.Savepoint
+
+theorem jobIdOf_jobURI (id : Nat) : jobIdOf (jobURI id) = some id := by
+  simp [jobIdOf, jobURI, Nat.toNat?_repr]
+
+/-- every job snapshot file in the storage has an id at most `newestLocalId` -/
+theorem le_newestLocalId (id : Nat) : ∀ (fs : FS) (c : Content), read fs (.work (jobURI id)) = some c →
+    id ≤ newestLocalId fs := by
+  intro fs
+  induction fs with
+  | nil => intro c h; simp [read] at h
+  | cons e r ih =>
+    intro c h
+    obtain ⟨q, c'⟩ := e
+    by_cases hq : q = .work (jobURI id)
+    · subst hq
+      simp only [newestLocalId, jobIdOf_jobURI]
+      exact Nat.le_max_left _ _
+    · have hr : read r (.work (jobURI id)) = some c := by simpa [read, hq] using h
+      have := ih c hr
+      cases q with
+      | work u =>
+        simp only [newestLocalId]
+        split
+        · exact Nat.le_trans this (Nat.le_max_right _ _)
+        · exact this
+      | sp i d b => simpa [newestLocalId] using this
+      | spJob i => simpa [newestLocalId] using this
 
 theorem read_write_eq (p : Path) (c : Content) (fs : FS) : read (write p c fs) p = some c := by
   simp [write, read]
